@@ -1,4 +1,5 @@
 import FuModel.Find.Expr
+import FuModel.Base.Utf8
 import FuModel.Find.Walk
 import FuModel.Base.Path
 import FuModel.Find.Numeric
@@ -353,7 +354,7 @@ def sem (start : Bytes) (v : Visit Attr) (p : Prim) (s : ES) : Bool × ES :=
   | .regex ic re =>
     -- the whole path, as printed, against the pattern
     (FuModel.Find.Regex.matchesRe ic re (match String.fromUTF8? ⟨path.toArray⟩ with | some t => t.toList | none => []), s)
-  | .pathOut pre term => (true, { s with gs := { s.gs with out := s.gs.out ++ pre ++ path ++ term } })
+  | .pathOut pre term => (true, { s with gs := { s.gs with out := s.gs.out ++ pre ++ FuModel.Utf8.lossy path ++ term } })
   | .lit b => (true, { s with gs := { s.gs with out := s.gs.out ++ b } })
   | .printf comps _ => (true, { s with gs := { s.gs with out := s.gs.out ++ PrintfR.render start v comps } })
   | .prune => (true, if fileType v == 'd' then { s with prune := true } else s)
